@@ -86,6 +86,71 @@ fn problem(tree: &Tree, table: &Table, text: &str, compiled: bool, st: Option<&m
     }
 }
 
+/// consuming evaluation of expressions produced by differentiation: their variable list keeps
+/// variables that no longer occur, while others occur several times
+fn derivative_case(rng: &mut crate::rng::Rng, st: &mut Stats) {
+    use crate::sym::{intern, OpSpec};
+    use exmex::prelude::*;
+    let table: Table = vec![
+        OpSpec::dual(intern("+"), 0, 0, true, 0),
+        OpSpec::dual(intern("-"), 1, 1, false, 1),
+        OpSpec::bin(intern("*"), 2, 2, true),
+        OpSpec::bin(intern("/"), 3, 3, false),
+        OpSpec::bin(intern("^"), 4, 4, false),
+        OpSpec::un(intern("sin"), 5),
+        OpSpec::un(intern("cos"), 6),
+        OpSpec::un(intern("ln"), 7),
+        OpSpec::un(intern("exp"), 8),
+    ];
+    install(&table);
+    let nvars = rng.range(1, 4);
+    let gcfg = GenCfg { lit_num: 2, const_num: 0, un_num: 1, chain_num: 4, vars: (0..nvars).map(|k| ["x", "y", "z", "w"][k].to_string()).collect() };
+    let size = rng.range(1, 7);
+    let tree = gen_tree(rng, &table, size, &gcfg);
+    let text = render_plain(&tree, &table);
+    let vars = tree.vars();
+    if vars.is_empty() {
+        return;
+    }
+    let wrt = rng.below(vars.len());
+    let order = rng.range(1, 2);
+    st.bump("cases");
+    st.bump("derivative_cases");
+    st.class(("deriv", tree.shape_key(&table), wrt, order));
+    let n = vars.len();
+    let values = |n: usize| (0..n).map(|i| Tok { term: Sym::Var(i), origin: Some(i) }).collect::<Vec<_>>();
+    let r = catch(|| -> Option<String> {
+        let d = FT::parse(&text).ok()?.partial_nth(wrt, order).ok()?;
+        reset_counters(n);
+        let b = d.eval(&values(n)).ok()?;
+        if default_reached_op() > 0 {
+            return Some("eval: a default placeholder reached an operator".into());
+        }
+        for (which, f) in [("eval_vec", 0), ("eval_iter", 1)] {
+            reset_counters(n);
+            let got = if f == 0 { d.eval_vec(values(n)) } else { d.eval_iter(values(n).into_iter()) };
+            let got = match got {
+                Ok(g) => g,
+                Err(e) => return Some(format!("{which} error: {}", e.msg())),
+            };
+            if default_reached_op() > 0 {
+                return Some(format!("{which} on the derivative {}: a moved-out placeholder reached an operator", d.unparse()));
+            }
+            if got.term != b.term {
+                return Some(format!("{which} on the derivative {}: value {:?} differs from eval's {:?}", d.unparse(), got.term, b.term));
+            }
+        }
+        None
+    });
+    let p = match r {
+        Ok(p) => p,
+        Err(m) => Some(format!("panic: {m}")),
+    };
+    if let Some(p) = p {
+        st.violation(format!("derivative|{text}|d{}^{order}", vars[wrt]), text.len(), json!({"kind": "consuming-eval-of-derivative", "text": text, "wrt": vars[wrt], "order": order, "problem": p}));
+    }
+}
+
 pub fn run(ctx: &Ctx) -> i32 {
     let n = ctx.n(120_000, 6_000_000);
     let stats = run_workers(ctx, 15, |w, rng, st| {
@@ -108,6 +173,11 @@ pub fn run(ctx: &Ctx) -> i32 {
             let tree = gen_tree(rng, &table, size, &gcfg);
             let rcfg = RenderCfg::random(rng);
             let text = render(&tree, &table, rng, &rcfg);
+            if i % 5 == 4 {
+                derivative_case(rng, st);
+                install(&table);
+                continue;
+            }
             let compiled = rng.chance(1, 2);
             st.bump("cases");
             st.bump(if compiled { "cases_folded" } else { "cases_unfolded" });
@@ -134,11 +204,12 @@ pub fn run(ctx: &Ctx) -> i32 {
         st.add("operands_observed_by_operators", operands_seen());
     });
     let report = Report::new(
-        "random trees (1..100 operands) over 1..20 variables with arbitrary repetition, random tables and spellings, folded and unfolded FlatEx over the tracking value type Tok: eval_vec and eval_iter must return the identical term as eval (which must equal the reference tree mod AC), no default/moved-out placeholder may reach an operator (every operand an operator receives is inspected), the clone counter of each variable occurring exactly once must be 0 after a consuming evaluation, wrong arity must be an error. distinct_nontrivial = distinct (tree shape, table class, folded?) classes.",
+        "random trees (1..100 operands) over 1..20 variables with arbitrary repetition, random tables and spellings, folded and unfolded FlatEx over the tracking value type Tok: eval_vec and eval_iter must return the identical term as eval (which must equal the reference tree mod AC), no default/moved-out placeholder may reach an operator (every operand an operator receives is inspected), the clone counter of each variable occurring exactly once must be 0 after a consuming evaluation, wrong arity must be an error. Every fifth case differentiates a parsed expression first (Tok is also a differentiable data type), because a derivative keeps variables that no longer occur while others occur several times. distinct_nontrivial = distinct (tree shape, table class, folded?) classes.",
     )
     .assume("nothing is demanded about how many clones a repeated variable needs")
     .require("single_occurrence_vars_checked_for_moves", 1000)
     .require("repeated_vars", 1000)
-    .require("operands_observed_by_operators", 10000);
+    .require("operands_observed_by_operators", 10000)
+    .require("derivative_cases", 1000);
     finish(ctx, stats, report)
 }
